@@ -29,9 +29,13 @@ ARGS = "t1 u1 f1 s1 l1 e1 h1 t2 u2 f2 s2 l2 e2 h2 tb fb p1 p2 q1 q2 r1 r2"
 
 
 class RSym(Sym):
-    """a symbolic number of a rounding arithmetic: the result of every operation is `rnd (…)`"""
+    """a symbolic number of a rounding arithmetic: the result of every operation is `rnd (…)`.
+    Hashable (by its expression), so that code which puts its arguments into the key of a cache can be traced; the
+    state of the traced modules is put back after every path (`isolated`), so such a key never meets an equal one"""
     __slots__ = ()
-    __hash__ = None
+
+    def __hash__(self):
+        return hash(("RSym", self.e))
 
     def _bin(self, o, sym, fn, rev=False):
         o = Sym.lift(o)
@@ -46,11 +50,65 @@ def rvar(name):
     return RSym(name, None)
 
 
+class HSym(Sym):
+    """an exact symbolic number that can be part of the key of a cache (see RSym)"""
+    __slots__ = ()
+
+    def __hash__(self):
+        return hash(("HSym", self.e))
+
+
+def hvar(name):
+    return HSym(name, lambda env, n=name: env[n])
+
+
+def isolated(run, *modules):
+    """`run` with the mutable module-level state of the traced modules put back afterwards: what one symbolic path
+    stores in a module-level dict (a cache) must not be seen by the next path or by the real calls that follow;
+    `functools.lru_cache`s of the modules are emptied before and after"""
+    def clear_lru():
+        for m in modules:
+            for n, v in list(vars(m).items()):
+                cc = getattr(v, "cache_clear", None)
+                if callable(cc) and not n.startswith("__"):
+                    try:
+                        cc()
+                    except Exception:  # noqa: BLE001
+                        pass
+
+    def wrapped():
+        snaps = [(v, dict(v)) for m in modules for n, v in list(vars(m).items())
+                 if type(v).__name__ in ("dict", "OrderedDict", "defaultdict") and not n.startswith("__")]
+        clear_lru()
+        try:
+            return run()
+        finally:
+            for v, old in snaps:
+                try:
+                    v.clear()
+                    v.update(old)
+                except Exception:  # noqa: BLE001
+                    pass
+            clear_lru()
+    return wrapped
+
+
+class CacheFriendly:
+    """what a geometry stand-in offers to code that builds a cache key from its arguments: identity hashing and a
+    serialisation that is unique per stand-in"""
+
+    def model_dump_json(self, **kw):
+        return f"<traced geometry {id(self)}>"
+
+    def model_dump(self, **kw):
+        return {"type": self.type, "coordinates": f"<traced coordinates {id(self)}>"}
+
+
 def term(x):
     return x.e if isinstance(x, Sym) else st.lit(x)
 
 
-class TGeom:
+class TGeom(CacheFriendly):
     """a traced geometry: `.type`, `.coordinates`, the Lean term of the geometry (`lean`) or of its shape"""
 
     def __init__(self, type, coordinates=None, lean=None, shape=None):
@@ -166,7 +224,7 @@ def tracer(A, O, real_data, ty1, ty2, marker=True):
         b1, b2 = A.compute_bounds(g1), A.compute_bounds(g2)
         return TimeLeaf(b1[0], b1[2], b2[0], b2[2])
 
-    def run():
+    def run_():
         patches = [(O, "data", DataStub), (O, "geometry_to_shapely", to_shape),
                    (O, "buffer_shapely_geometry", buffer_marker), (A, "geometry_to_shapely", to_shape)]
         if marker:
@@ -179,7 +237,7 @@ def tracer(A, O, real_data, ty1, ty2, marker=True):
         finally:
             for m, n, v in saved:
                 setattr(m, n, v)
-    return run
+    return isolated(run_, A, O)
 
 
 def _leaf(leaf):
@@ -312,7 +370,7 @@ def buffer_obligation(name, O, real_data, ty):
             return out.coordinates
         finally:
             O.data = saved
-    res = st.trace(run, catch=(ValueError,))
+    res = st.trace(isolated(run, O), catch=(ValueError,))
     tree = st.to_tree(res)
 
     def tr(t, indent):
